@@ -96,22 +96,55 @@ Theorem rewards_fatal_on_empty_commit_info :
 Proof. exact reward_fatal_den_zero. Qed.
 Print Assumptions rewards_fatal_on_empty_commit_info.
 
-(* TransferFromCommon(escrow=true) is total unless the destination was slashed
-   to zero with shares outstanding AND has a 100 % commission rate ... *)
+(* TransferFromCommon(escrow=true) (as repaired by commit c3a21ab) never fails, for ANY
+   destination pool -- including one slashed to zero with shares outstanding -- any pool,
+   amount and commission rate up to 100 % *)
 Theorem transfer_from_common_escrow_total :
   forall cden bal ts pool amount rate,
-    cden <> 0 -> rate <= cden -> (ts = 0 \/ bal <> 0 \/ rate < cden) ->
+    cden <> 0 -> rate <= cden ->
     is_fatal (transfer_from_common_escrow cden bal ts pool amount rate) = false.
 Proof. exact tfc_total. Qed.
 Print Assumptions transfer_from_common_escrow_total.
 
-(* ... in which case it fails (caller: roothash distributeSlashedFunds, run from EndBlock) *)
-Theorem transfer_from_common_escrow_refuted :
+(* the common pool decreases by exactly what the escrow (rem + com) and the general
+   balance (gen) of the destination receive, and by no more than it holds *)
+Theorem transfer_from_common_escrow_conserves :
+  forall cden bal ts pool amount rate rem com sh gen,
+    cden <> 0 -> rate <= cden ->
+    transfer_from_common_escrow cden bal ts pool amount rate = Ok (Some (rem, com, sh, gen)) ->
+    rem + com + gen = N.min pool amount /\ N.min pool amount <= pool.
+Proof. exact tfc_conserves. Qed.
+Print Assumptions transfer_from_common_escrow_conserves.
+
+(* The ORIGINAL function (before c3a21ab; definition transfer_from_common_escrow_original)
+   is REFUTED: a destination slashed to zero with shares outstanding and a 100 % commission
+   rate makes it fail (caller: roothash distributeSlashedFunds, run from EndBlock -- the halt
+   was reproduced on the real multiplexer), where the repaired function does not. *)
+Theorem transfer_from_common_escrow_original_refuted :
+  exists cden bal ts pool amount rate,
+    cden <> 0 /\ rate <= cden /\
+    transfer_from_common_escrow_original cden bal ts pool amount rate = Fatal /\
+    is_fatal (transfer_from_common_escrow cden bal ts pool amount rate) = false.
+Proof. exact tfc_original_refuted. Qed.
+Print Assumptions transfer_from_common_escrow_original_refuted.
+
+(* every such state fails in the original; the repair leaves the commission in the general balance *)
+Theorem transfer_from_common_escrow_original_fatal_dead_pool :
   forall cden ts pool amount,
     cden <> 0 -> ts <> 0 -> pool <> 0 -> amount <> 0 ->
-    transfer_from_common_escrow cden 0 ts pool amount cden = Fatal.
-Proof. exact tfc_fatal_full_commission. Qed.
-Print Assumptions transfer_from_common_escrow_refuted.
+    transfer_from_common_escrow_original cden 0 ts pool amount cden = Fatal /\
+    transfer_from_common_escrow cden 0 ts pool amount cden = Ok (Some (0, 0, 0, N.min pool amount)).
+Proof. exact tfc_original_fatal_full_commission. Qed.
+Print Assumptions transfer_from_common_escrow_original_fatal_dead_pool.
+
+(* outside the dead-pool case the repair changes nothing *)
+Theorem transfer_from_common_escrow_original_agrees :
+  forall cden bal ts pool amount rate,
+    cden <> 0 -> rate <= cden -> (ts = 0 \/ bal <> 0 \/ rate < cden) ->
+    transfer_from_common_escrow_original cden bal ts pool amount rate =
+    transfer_from_common_escrow cden bal ts pool amount rate.
+Proof. exact tfc_original_agrees. Qed.
+Print Assumptions transfer_from_common_escrow_original_agrees.
 
 (* SlashEscrow never fails and never takes more than each pool holds *)
 Theorem slash_total :
